@@ -128,13 +128,12 @@ class MasterScheduler(BaseScheduler):
         Args:
             source (ComponentID): The source component which should be updated.
         """
-        self.add_wakeup(
-            source,
-            SimTime(
-                self.last_tick_time
-                + int((time_ns() - self.last_time) * self.simulation_speed)
-            ),
+        when = SimTime(
+            self.last_tick_time
+            + int((time_ns() - self.last_time) * self.simulation_speed)
         )
+        # an interrupt never postpones a wakeup which is already pending
+        self.add_wakeup(source, min(when, self.wakeups.get(source, when)))
 
     def sleep_time(self, when: SimTime) -> float:
         """Computes the real world time until a specified simulation time.
